@@ -1,3 +1,471 @@
-/- stub: model `ServiceLife` (to be written) -/
+/-
+C06 — L1 (API-call atomic) model of service creation / opening / lifetime.
+
+Transcribes, by reading,
+  iceoryx2/src/service/builder/mod.rs            (`BuilderWithServiceType::{create, open, open_or_create,
+                                                   is_service_available, open_dynamic_config_storage}`)
+  iceoryx2/src/service/builder/{publish_subscribe, event, request_response, blackboard}.rs
+                                                  (`adjust_*_to_meaningful_values`, `verify_service_configuration`,
+                                                   the pattern specific `is_service_available`, `create_impl`)
+  iceoryx2/src/service/mod.rs                     (`ServiceState::drop`, `does_exist`, `list`)
+  iceoryx2/src/node/mod.rs                        (`RegisteredServices::{add, add_or, remove}`, `create_service_tag`)
+  iceoryx2/src/service/dynamic_config/mod.rs      (`register_node_id`, `deregister_node_id`)
+  iceoryx2/src/service/static_config/message_type_details.rs (`is_compatible_to`)
+  iceoryx2/src/service/attribute.rs               (`AttributeVerifier::verify_requirements`)
+
+One `Op` = one public API call, executed atomically (Part B, `ServiceLifeConc.lean`, refines create and
+open into their externally visible steps).  A service is identified by (name, messaging pattern): the
+service hash covers both (static_config/mod.rs:62-130), so equal names with different patterns are
+different services and `IncompatibleMessagingPattern` is unreachable through the builders.
+
+The per-pattern part (fields in the order `verify_service_configuration` checks them, defaults, 0→1
+adjustment, error names) is data: `Spec`.  Values are naturals: flags 0/1, optional values 0 = none /
+v+1 = some v.
+-/
 namespace Iox2.ServiceLife
+
+inductive Pat where
+  | ps | ev | rr | bb
+deriving DecidableEq, Repr, Inhabited
+
+structure TypeDetail where
+  variant : Nat            -- 0 FixedSize, 1 Dynamic
+  name : String
+  size : Nat
+  align : Nat
+deriving DecidableEq, Repr, Inhabited
+
+inductive Kind where
+  | ge      -- existing ≥ required          (`existing < required` fails)
+  | eq      -- existing = required
+deriving DecidableEq, Repr
+
+structure Field where
+  key : String
+  kind : Kind
+  err : String             -- the open error reported when this check fails
+  dflt : Nat               -- config default (the harness pins the same values)
+  clamp : Bool             -- adjust_*_to_meaningful_values: 0 becomes 1
+  cap : Bool               -- capacity of a dynamic-config container (a value of 0 cannot be initialised)
+deriving Repr
+
+def fld (key : String) (kind : Kind) (err : String) (dflt : Nat) (clamp : Bool := false) (cap : Bool := false) : Field :=
+  { key, kind, err, dflt, clamp, cap }
+
+/-- publish_subscribe.rs:617-698 (order of the checks), :575-612 (adjust), config defaults of the harness -/
+def psFields : List Field := [
+  fld "mp" .ge "DoesNotSupportRequestedAmountOfPublishers" 2 true true,
+  fld "ms" .ge "DoesNotSupportRequestedAmountOfSubscribers" 3 true true,
+  fld "b" .ge "DoesNotSupportRequestedMinBufferSize" 2 true,
+  fld "h" .ge "DoesNotSupportRequestedMinHistorySize" 0,
+  fld "r" .ge "DoesNotSupportRequestedMinSubscriberBorrowedSamples" 2 true,
+  fld "o" .eq "IncompatibleOverflowBehavior" 1,
+  fld "mn" .ge "DoesNotSupportRequestedAmountOfNodes" 2 true true ]
+
+/-- event.rs:543-640 -/
+def evFields : List Field := [
+  fld "nt" .ge "DoesNotSupportRequestedAmountOfNotifiers" 2 true true,
+  fld "ls" .ge "DoesNotSupportRequestedAmountOfListeners" 2 true true,
+  fld "eid" .ge "DoesNotSupportRequestedMaxEventId" 255,
+  fld "mn" .ge "DoesNotSupportRequestedAmountOfNodes" 2 true true,
+  fld "ce" .eq "IncompatibleNotifierCreatedEvent" 0,
+  fld "de" .eq "IncompatibleNotifierDroppedEvent" 0,
+  fld "xe" .eq "IncompatibleNotifierDeadEvent" 0,
+  fld "dl" .eq "IncompatibleDeadline" 0 ]
+
+/-- request_response.rs:696-809 -/
+def rrFields : List Field := [
+  fld "so" .eq "IncompatibleOverflowBehaviorForRequests" 1,
+  fld "sr" .eq "IncompatibleOverflowBehaviorForResponses" 1,
+  fld "ff" .eq "IncompatibleBehaviorForFireAndForgetRequests" 1,
+  fld "ar" .ge "DoesNotSupportRequestedAmountOfActiveRequestsPerClient" 4 true,
+  fld "lr" .ge "DoesNotSupportRequestedAmountOfClientRequestLoans" 2 true,
+  fld "br" .ge "DoesNotSupportRequestedAmountOfBorrowedResponsesPerPendingResponse" 2 true,
+  fld "rb" .ge "DoesNotSupportRequestedResponseBufferSize" 2 true,
+  fld "sv" .ge "DoesNotSupportRequestedAmountOfServers" 2 true true,
+  fld "cl" .ge "DoesNotSupportRequestedAmountOfClients" 2 true true,
+  fld "mn" .ge "DoesNotSupportRequestedAmountOfNodes" 2 true true ]
+
+/-- blackboard.rs:662-703 -/
+def bbFields : List Field := [
+  fld "rd" .ge "DoesNotSupportRequestedAmountOfReaders" 2 true true,
+  fld "mn" .ge "DoesNotSupportRequestedAmountOfNodes" 2 true true ]
+
+def fieldsOf : Pat → List Field
+  | .ps => psFields | .ev => evFields | .rr => rrFields | .bb => bbFields
+
+/-- error of an incompatible payload / key type (`From<ServiceState>` of the four open errors) -/
+def typeErr : Pat → String
+  | .ps => "IncompatibleTypes" | .ev => "IncompatibleMessagingPattern"
+  | .rr => "IncompatibleRequestOrResponseType" | .bb => "IncompatibleKeys"
+
+/-- position of `max_nodes` among the fields -/
+def mnIdx : Pat → Nat
+  | .ps => 6 | .ev => 3 | .rr => 9 | .bb => 1
+
+/-- positions of the two port limits (blackboard: readers; writers are limited to 1) -/
+def portIdx : Pat → Nat → Option Nat
+  | .ps, 0 => some 0 | .ps, 1 => some 1
+  | .ev, 0 => some 0 | .ev, 1 => some 1
+  | .rr, 0 => some 8 | .rr, 1 => some 7
+  | .bb, 0 => some 0
+  | _, _ => none
+
+def patIdx : Pat → Nat
+  | .ps => 0 | .ev => 1 | .rr => 2 | .bb => 3
+
+/-- port kinds are numbered pub 0, sub 1, notifier 2, listener 3, client 4, server 5, reader 6, writer 7;
+a factory only builds the two kinds of its own pattern -/
+def kindOf (p : Pat) (code : Nat) : Option Nat :=
+  if code / 2 == patIdx p then some (code % 2) else none
+
+def portErr : Pat → Nat → String
+  | .ps, 0 => "ExceedsMaxSupportedPublishers" | .ps, _ => "ExceedsMaxSupportedSubscribers"
+  | .ev, 0 => "ExceedsMaxSupportedNotifiers" | .ev, _ => "ExceedsMaxSupportedListeners"
+  | .rr, 0 => "ExceedsMaxSupportedClients" | .rr, _ => "ExceedsMaxSupportedServers"
+  | .bb, 0 => "ExceedsMaxSupportedReaders" | .bb, _ => "ExceedsMaxSupportedWriters"
+
+structure Settings where
+  vals : List Nat
+  types : List TypeDetail
+  attrs : List (Nat × Nat)
+deriving DecidableEq, Repr, Inhabited
+
+/-- what a builder carries when `create` / `open` / `open_or_create` is called -/
+structure Req where
+  vals : List (Option Nat)          -- per field: the value, if the setter was called (`verify.* = true`)
+  types : List TypeDetail           -- ps: payload, user header; rr: request, response payload; bb: key
+  attrs : List (Nat × Nat)          -- defined (create) / required (open) key-value pairs
+  keys : List Nat                   -- required keys (open only)
+  entries : Nat                     -- blackboard creator: number of `add` calls
+deriving Repr, Inhabited
+
+structure Key where
+  s : Nat
+  p : Pat
+deriving DecidableEq, Repr, Inhabited
+
+/-- static config (settings) + dynamic config (registered node ids) of one incarnation -/
+structure Svc where
+  key : Key
+  uid : Nat
+  cfg : Settings
+  regs : List Nat
+  creq : Req                        -- ghost: the request of the call that created this incarnation
+deriving Repr, Inhabited
+
+/-- one `ServiceState` (shared by a port factory and the ports created from it) -/
+structure SState where
+  node : Nat
+  key : Key
+  uid : Nat
+  cfg : Settings
+  factory : Option Nat              -- label of the port factory while it is alive
+  ports : List (Nat × Nat)          -- (label, kind)
+deriving Repr, Inhabited
+
+structure World where
+  nodes : List (Nat × Bool)         -- label, node handle still held by the user
+  svcs : List Svc
+  refs : List (Nat × Key × Nat)     -- `registered_services` of every node: (node, service, count ≥ 1); one service tag per entry
+  states : List SState
+  nextUid : Nat
+deriving Repr, Inhabited
+
+def World.init : World := { nodes := [], svcs := [], refs := [], states := [], nextUid := 0 }
+
+inductive Out where
+  | ok
+  | okCfg (p : Pat) (c : Settings)
+  | err (wrap : Nat) (e : String)   -- wrap: 0 plain, 1 `…OpenOrCreateError::…OpenError(e)`, 2 `…CreateError(e)`
+  | dup | none | noNode | noOoc | badKind | panic
+  | bool (b : Bool)
+  | regs (l : List Nat)
+  | cfg (p : Pat) (c : Settings)
+  | list (l : List (Key × Nat × Settings))
+  | files (svc tags bb : Nat)
+deriving Repr, Inhabited
+
+inductive Op where
+  | node (n : Nat) | dnode (n : Nat)
+  | create (n s h : Nat) (p : Pat) (r : Req)
+  | open_ (n s h : Nat) (p : Pat) (r : Req)
+  | ooc (n s h : Nat) (p : Pat) (r : Req)
+  | drop (h : Nat)
+  | port (h pl code : Nat) | dport (pl : Nat)
+  | settings (h : Nat) | regs (h : Nat)
+  | exists_ (s : Nat) (p : Pat)
+  | list | ls | end_
+deriving Repr, Inhabited
+
+/-! ## settings of a creator, checks of an opener -/
+
+/-- `adjust_*_to_meaningful_values`; every builder adjusts (the slice-typed publish-subscribe builders since
+fix 0c61d51) -/
+def clampV (f : Field) (v : Nat) : Nat :=
+  if f.clamp && v == 0 then 1 else v
+
+/-- the static config a creator writes: stated value or default, adjusted -/
+def mkVals : List Field → List (Option Nat) → List Nat
+  | [], _ => []
+  | f :: fs, [] => clampV f f.dflt :: mkVals fs []
+  | f :: fs, r :: rs => clampV f (r.getD f.dflt) :: mkVals fs rs
+
+/-- `open_or_create` adjusts the builder before the open attempt: stated requirements of 0 become 1 -/
+def clampReq : List Field → List (Option Nat) → List (Option Nat)
+  | f :: fs, r :: rs => r.map (clampV f) :: clampReq fs rs
+  | _, _ => []
+
+def insertAttr (a : Nat × Nat) : List (Nat × Nat) → List (Nat × Nat)
+  | [] => [a]
+  | b :: bs => if a.1 < b.1 ∨ (a.1 = b.1 ∧ a.2 ≤ b.2) then a :: b :: bs else b :: insertAttr a bs
+
+/-- `AttributeSet::add` keeps the set sorted -/
+def sortAttrs (l : List (Nat × Nat)) : List (Nat × Nat) := l.foldl (fun acc a => insertAttr a acc) []
+
+def mkSettings (p : Pat) (r : Req) : Settings :=
+  { vals := mkVals (fieldsOf p) r.vals, types := r.types, attrs := sortAttrs r.attrs }
+
+def checkFails (f : Field) (existing required : Nat) : Bool :=
+  match f.kind with
+  | .ge => existing < required
+  | .eq => existing != required
+
+/-- `verify_service_configuration` after the attributes: the first stated requirement (in code order)
+that the existing settings do not satisfy -/
+def firstFail : List Field → List Nat → List (Option Nat) → Option String
+  | f :: fs, e :: es, r :: rs =>
+    match r with
+    | some v => if checkFails f e v then some f.err else firstFail fs es rs
+    | none => firstFail fs es rs
+  | _, _, _ => none
+
+/-- `MessageTypeDetails::is_compatible_to` (payload and user header each); blackboard keys: equality -/
+def typeOk (p : Pat) (req ex : TypeDetail) : Bool :=
+  if p = .bb then req == ex
+  else req.name == ex.name && req.variant == ex.variant && req.size == ex.size && req.align ≤ ex.align
+
+def typesOk (p : Pat) : List TypeDetail → List TypeDetail → Bool
+  | [], [] => true
+  | r :: rs, e :: es => typeOk p r e && typesOk p rs es
+  | _, _ => false
+
+/-- `AttributeVerifier::verify_requirements` -/
+def attrsOk (r : Req) (ex : List (Nat × Nat)) : Bool :=
+  r.attrs.all (fun a => ex.contains a) && r.keys.all (fun k => ex.any (fun a => a.1 == k))
+
+/-- everything `open` checks against the static config, in code order: types (is_service_available),
+attributes, the stated settings -/
+def verify (p : Pat) (r : Req) (ex : Settings) : Option String :=
+  if !typesOk p r.types ex.types then some (typeErr p)
+  else if !attrsOk r ex.attrs then some "IncompatibleAttributes"
+  else firstFail (fieldsOf p) ex.vals r.vals
+
+/-- checks a creator fails before it looks whether the service exists
+(publish_subscribe.rs:706-714, blackboard.rs:478-482) -/
+def preCheck (p : Pat) (r : Req) (vals : List Nat) : Option String :=
+  match p with
+  | .ps => if vals.getD 5 1 == 0 && vals.getD 2 0 < vals.getD 3 0 then some "SubscriberBufferMustBeLargerThanHistorySize" else none
+  | .bb => if r.entries == 0 then some "NoEntriesProvided" else none
+  | _ => none
+
+/-- a container of the dynamic config with capacity 0: `init` fails, the builder panics ("This should never
+happen"); unreachable since every builder adjusts 0 to 1 (`Iox2.C06.create_never_panics`) -/
+def zeroCap : List Field → List Nat → Bool
+  | f :: fs, v :: vs => (f.cap && v == 0) || zeroCap fs vs
+  | _, _ => false
+
+/-! ## lookups -/
+
+def findSvc (w : World) (k : Key) : Option Svc := w.svcs.find? (fun s => s.key == k)
+
+def refCount (w : World) (n : Nat) (k : Key) : Nat :=
+  match w.refs.find? (fun r => r.1 == n && r.2.1 == k) with
+  | some r => r.2.2
+  | none => 0
+
+def hasNode (w : World) (n : Nat) : Bool := w.nodes.any (fun x => x.1 == n && x.2)
+
+def labelUsed (w : World) (h : Nat) : Bool := w.states.any (fun st => st.factory == some h)
+
+def portUsed (w : World) (pl : Nat) : Bool := w.states.any (fun st => st.ports.any (fun q => q.1 == pl))
+
+def maxNodes (p : Pat) (c : Settings) : Nat := c.vals.getD (mnIdx p) 0
+
+def portCount (w : World) (k : Key) (kind : Nat) : Nat :=
+  ((w.states.filter (fun st => st.key == k)).map (fun st => (st.ports.filter (fun q => q.2 == kind)).length)).sum
+
+def portLimit (p : Pat) (c : Settings) (kind : Nat) : Nat :=
+  match portIdx p kind with
+  | some i => c.vals.getD i 0
+  | none => 1
+
+/-! ## create / open -/
+
+/-- `RegisteredServices::add_or` + `register_node_id`: only the first ServiceState of a node registers
+the node id in the dynamic config (and creates the service tag) -/
+def addRef (w : World) (n : Nat) (k : Key) : World :=
+  if refCount w n k == 0 then
+    { w with refs := (n, k, 1) :: w.refs,
+             svcs := w.svcs.map (fun s => if s.key == k then { s with regs := n :: s.regs } else s) }
+  else
+    { w with refs := w.refs.map (fun r => if r.1 == n && r.2.1 == k then (r.1, r.2.1, r.2.2 + 1) else r) }
+
+def addState (w : World) (n h : Nat) (svc : Svc) : World :=
+  { w with states := { node := n, key := svc.key, uid := svc.uid, cfg := svc.cfg, factory := some h, ports := [] } :: w.states }
+
+/-- `BuilderWithServiceType::create` behind the pattern specific front end -/
+def createCore (w : World) (n h : Nat) (k : Key) (r : Req) : World × Out :=
+  let cfg := mkSettings k.p r
+  match preCheck k.p r cfg.vals with
+  | some e => (w, .err 0 e)
+  | none =>
+    match findSvc w k with
+    | some _ => (w, .err 0 "AlreadyExists")
+    | none =>
+      if zeroCap (fieldsOf k.p) cfg.vals then (w, .panic) else
+      let svc : Svc := { key := k, uid := w.nextUid, cfg := cfg, regs := [n], creq := r }
+      let w1 := { w with svcs := svc :: w.svcs, refs := (n, k, 1) :: w.refs, nextUid := w.nextUid + 1 }
+      (addState w1 n h svc, .okCfg k.p cfg)
+
+/-- `BuilderWithServiceType::open` -/
+def openCore (w : World) (n h : Nat) (k : Key) (r : Req) : World × Out :=
+  match findSvc w k with
+  | none => (w, .err 0 "DoesNotExist")
+  | some svc =>
+    match verify k.p r svc.cfg with
+    | some e => (w, .err 0 e)
+    | none =>
+      if refCount w n k == 0 && maxNodes k.p svc.cfg ≤ svc.regs.length then (w, .err 0 "ExceedsMaxNumberOfNodes")
+      else (addState (addRef w n k) n h svc, .okCfg k.p svc.cfg)
+
+def wrapErr (wrap : Nat) : World × Out → World × Out
+  | (w, .err _ e) => (w, .err wrap e)
+  | x => x
+
+/-- `BuilderWithServiceType::open_or_create`, sequential part: open; `DoesNotExist` → create with the
+required attributes; every other open error is final -/
+def oocCore (w : World) (n h : Nat) (k : Key) (r : Req) : World × Out :=
+  let r' := { r with vals := clampReq (fieldsOf k.p) r.vals }
+  match openCore w n h k r' with
+  | (w', .err _ e) => if e == "DoesNotExist" then wrapErr 2 (createCore w n h k { r' with keys := [] }) else (w', .err 1 e)
+  | x => x
+
+/-! ## drop -/
+
+/-- `ServiceState::drop`: the node-local count goes down; at 0 the service tag is removed and the node id
+deregistered; the last node id removes the service (`NoMoreOwners`) -/
+def release (w : World) (st : SState) : World :=
+  if refCount w st.node st.key ≤ 1 then
+    let refs := w.refs.filter (fun r => !(r.1 == st.node && r.2.1 == st.key))
+    match findSvc w st.key with
+    | none => { w with refs := refs }
+    | some svc =>
+      let regs := svc.regs.erase st.node
+      if regs.isEmpty then { w with refs := refs, svcs := w.svcs.filter (fun s => !(s.key == st.key)) }
+      else { w with refs := refs, svcs := w.svcs.map (fun s => if s.key == st.key then { s with regs := regs } else s) }
+  else
+    { w with refs := w.refs.map (fun r => if r.1 == st.node && r.2.1 == st.key then (r.1, r.2.1, r.2.2 - 1) else r) }
+
+/-- replace the state that satisfies `sel` by `f` of it; a state without factory and ports is dropped -/
+def updState (w : World) (sel : SState → Bool) (f : SState → SState) : World :=
+  match w.states.find? sel with
+  | none => w
+  | some st =>
+    let st' := f st
+    if st'.factory.isNone && st'.ports.isEmpty then
+      release { w with states := w.states.filter (fun x => !sel x) } st'
+    else
+      { w with states := w.states.map (fun x => if sel x then st' else x) }
+
+def dropAll : Nat → World → World
+  | 0, w => w
+  | fuel + 1, w =>
+    match w.states with
+    | [] => w
+    | st :: rest => dropAll fuel (release { w with states := rest } st)
+
+def filesOf (w : World) : Out :=
+  .files w.svcs.length w.refs.length (w.svcs.filter (fun s => s.key.p == .bb)).length
+
+/-! ## one API call -/
+
+def step (w : World) : Op → World × Out
+  | .node n =>
+    if w.nodes.any (fun x => x.1 == n) then (w, .dup) else ({ w with nodes := (n, true) :: w.nodes }, .ok)
+  | .dnode n =>
+    if hasNode w n then ({ w with nodes := w.nodes.map (fun x => if x.1 == n then (x.1, false) else x) }, .ok) else (w, .none)
+  | .create n s h p r =>
+    if labelUsed w h then (w, .dup) else if !hasNode w n then (w, .noNode) else createCore w n h ⟨s, p⟩ r
+  | .open_ n s h p r =>
+    if labelUsed w h then (w, .dup) else if !hasNode w n then (w, .noNode) else openCore w n h ⟨s, p⟩ r
+  | .ooc n s h p r =>
+    if labelUsed w h then (w, .dup) else if !hasNode w n then (w, .noNode) else
+    if p = .bb then (w, .noOoc) else oocCore w n h ⟨s, p⟩ r
+  | .drop h =>
+    if labelUsed w h then (updState w (fun st => st.factory == some h) (fun st => { st with factory := none }), .ok) else (w, .none)
+  | .port h pl code =>
+    if portUsed w pl then (w, .dup) else
+    match w.states.find? (fun st => st.factory == some h) with
+    | none => (w, .none)
+    | some st =>
+      match kindOf st.key.p code with
+      | none => (w, .badKind)
+      | some kind =>
+      if portLimit st.key.p st.cfg kind ≤ portCount w st.key kind then (w, .err 0 (portErr st.key.p kind))
+      else (updState w (fun x => x.factory == some h) (fun x => { x with ports := (pl, kind) :: x.ports }), .ok)
+  | .dport pl =>
+    if portUsed w pl then
+      (updState w (fun st => st.ports.any (fun q => q.1 == pl)) (fun st => { st with ports := st.ports.filter (fun q => !(q.1 == pl)) }), .ok)
+    else (w, .none)
+  | .settings h =>
+    match w.states.find? (fun st => st.factory == some h) with
+    | some st => (w, .cfg st.key.p st.cfg)
+    | none => (w, .none)
+  | .regs h =>
+    match w.states.find? (fun st => st.factory == some h) with
+    | some st => (w, match findSvc w st.key with | some svc => .regs svc.regs | none => .regs [])
+    | none => (w, .none)
+  | .exists_ s p => (w, .bool (findSvc w ⟨s, p⟩).isSome)
+  | .list => (w, .list (w.svcs.map (fun s => (s.key, s.regs.length, s.cfg))))
+  | .ls => (w, filesOf w)
+  | .end_ =>
+    let w' := dropAll w.states.length w
+    ({ w' with nodes := w'.nodes.map (fun x => (x.1, false)) }, filesOf w')
+
+def run (w : World) : List Op → World × List Out
+  | [] => (w, [])
+  | o :: os =>
+    let (w1, out) := step w o
+    let (w2, outs) := run w1 os
+    (w2, out :: outs)
+
+/-! ## executable form of the invariant (driver line `inv`; the proofs use the `Prop` version in
+`Iox2/Proof/ServiceLifeInv.lean`) -/
+
+def stateCount (w : World) (n : Nat) (k : Key) : Nat :=
+  (w.states.filter (fun st => st.node == n && st.key == k)).length
+
+def nodupB {α : Type} [BEq α] : List α → Bool
+  | [] => true
+  | x :: xs => !xs.contains x && nodupB xs
+
+def invB (w : World) : Bool :=
+  nodupB (w.svcs.map (·.key)) &&
+  w.states.all (fun st => w.svcs.any (fun svc => svc.key == st.key && svc.regs.contains st.node && svc.uid == st.uid && svc.cfg == st.cfg)) &&
+  w.svcs.all (fun svc => !svc.regs.isEmpty && nodupB svc.regs &&
+    svc.regs.all (fun n => w.states.any (fun st => st.node == n && st.key == svc.key)) &&
+    svc.cfg == mkSettings svc.key.p svc.creq && svc.uid < w.nextUid) &&
+  nodupB (w.refs.map (fun r => (r.1, r.2.1))) &&
+  w.refs.all (fun r => r.2.2 == stateCount w r.1 r.2.1 && r.2.2 ≥ 1) &&
+  w.states.all (fun st => refCount w st.node st.key ≥ 1) &&
+  nodupB (w.states.filterMap (·.factory)) &&
+  nodupB (w.states.flatMap (fun st => st.ports.map (·.1))) &&
+  w.states.all (fun st => st.factory.isSome || !st.ports.isEmpty)
+
+/-- every world a history of API calls can lead to -/
+inductive Reachable : World → Prop where
+  | init : Reachable World.init
+  | step {w : World} (o : Op) : Reachable w → Reachable (step w o).1
+
 end Iox2.ServiceLife
